@@ -326,6 +326,15 @@ def run(ctx):
                                suffix=rand_bytes(r, r.choice((0, 2))).hex())
         for s4 in range(16):
             k_status_maps(ctx, a, s4)
+    # text hazards (byte-order mark, NUL, leading/trailing white space, decomposed accents, 'cfdp', ...) as first and as second name
+    from spverif.core.util import HAZARD_NAMES
+    for hz in HAZARD_NAMES:
+        for a in (0, 1, 2, 3, 4):          # create, delete, rename, append, replace
+            two = a in R.TWO_NAME_ACTIONS
+            k_concrete(ctx, "fs_request", {"action": a, "first": hz, "second": r.choice(HAZARD_NAMES) if two else ""})
+            st = C.status_codes_for(a)[0]
+            k_concrete(ctx, "fs_response", {"action": a, "status": st, "first": "plain.txt" if two else hz, "second": hz if two else "", "msg": "00ff"})
+            ctx.table("hazard_names", "used")
     ctx.exhaustive.append("every filestore action code x every status code defined for it; all 13 condition codes x 4 handler codes")
     for _ in range(ctx.n(1500, 150_000)):
         name = r.choice(CONCRETE)
